@@ -5,13 +5,24 @@ from pyvc.values import ANY, STR, INT, BOOL, NONE_T, SEQ, DICT, SET, OBJ, OPT, F
 F = "runners/_shared/helpers.py:"
 
 CONTRACTS = {
+    F + "_clone_value": dict(
+        props=["C10", "C18"],
+        params={"value": ANY, "param_name": STR},
+        returns=ANY,
+        ensures=["is_deepcopy(result, value)"],     # each map item gets its own copy of a cloned broadcast value
+        may_raise={"GraphConfigError": True},
+        mustfail="result is value",
+    ),
     F + "_maybe_clone_broadcast": dict(
         props=["C10", "C18"],
         params={"broadcast_values": DICT(STR, ANY), "clone": ANY},
         returns=DICT(STR, ANY),
         may_raise={"Exception": "clone is not False"},      # deep copies may fail (GraphConfigError from _clone_value)
         ensures=["all(k in result for k in broadcast_values)", "all(k in broadcast_values for k in result)",
-                 "clone is not False or result is broadcast_values"],
+                 "clone is not False or result is broadcast_values",
+                 # clone=True: every broadcast value is handed over as its own deep copy; clone=[names]: exactly the named ones
+                 "clone is not True or all(is_deepcopy(result[k], broadcast_values[k]) for k in broadcast_values)",
+                 "clone is True or clone is False or all((is_deepcopy(result[k], broadcast_values[k]) if k in clone else result[k] is broadcast_values[k]) for k in broadcast_values)"],
         modifies=[],
     ),
     F + "_generate_zip_inputs": dict(
